@@ -81,6 +81,17 @@ class ST(Enum):
     TRAM = 11
     ROAD_SIDE_UNIT = 12
 
+    @classmethod
+    def _missing_(cls, value: object) -> "ST | None":
+        # The ST field is 5 bits wide: keep reserved values received from the
+        # wire instead of failing, so that they can be stored and re-encoded.
+        if isinstance(value, int) and not isinstance(value, bool) and 0 <= value <= 31:
+            member = object.__new__(cls)
+            member._name_ = f"RESERVED_{value}"
+            member._value_ = value
+            return cls._value2member_map_.setdefault(value, member)  # type: ignore
+        return None
+
     def encode_to_address(self) -> int:
         """
         Encodes ST to int for GN address
